@@ -523,7 +523,7 @@ func callSSA(i *interpreter, caller *frame, callpos token.Pos, fn *ssa.Function,
 		if fn.Synthetic == "package initializer" && fn.Pkg != nil && !i.program.initAllowed[fn.Pkg] {
 			return nil // inits outside the allow-list are not executed
 		}
-		if st := i.program.stubFor(name, i.path.entryFn()); st != nil {
+		if st := i.program.stubFor(name, i.path.entryFn()); st != nil && !(i.path != nil && i.path.noStub[name]) {
 			fn = st
 			fr.fn = st
 			name = st.String()
